@@ -209,7 +209,12 @@ def _resolve_identifier(
             f"Inherited expression does not expose attributes: {identifier.name}"
         )
 
-    for index, scope in enumerate(ordered_scopes):
+    # Lexical scopes (let, rec, formals) win over `with` environments at any depth.
+    lookup_order = [
+        index for index, scope in enumerate(ordered_scopes) if not scope.dynamic
+    ] + [index for index, scope in enumerate(ordered_scopes) if scope.dynamic]
+    for index in lookup_order:
+        scope = ordered_scopes[index]
         scope_chain = tuple(reversed(ordered_scopes[index:]))
         outer_chain = (
             tuple(reversed(ordered_scopes[index + 1 :]))
